@@ -229,7 +229,7 @@ gproof! { fn c06_arc_from_box__tr16() {
     assert!(vrt::drops() == 1 && vrt::gd(2) && vrt::glive(0));
 } }
 
-// @h props=C06,C05 fuc=Arc::from(Box) note="zero-sized boxed value: no box storage to release"
+// @h props=C06,C05,C01 fuc=Arc::from(Box) note="zero-sized boxed value: no box storage to release (nothing that was never allocated is handed to the allocator)"
 gproof! { fn c06_arc_from_box__zst() {
     let b = Box::new(Zd);
     let a: Arc<Zd> = Arc::from(b);
